@@ -159,7 +159,7 @@ def l3_printers(ctx):
         ok_order = False
         for (bid, t), k in zip(gets, keys):
             if k == '"en"':
-                ok_order = any('get_language(session)' in c and (c.endswith('!=[1]') or c.endswith('=[0]')) for c in b.cond_text(bid))
+                ok_order = any('get_language(session)' in c.replace('$', '') and (c.endswith('!=[1]') or c.endswith('=[0]')) for c in b.cond_text(bid))
         name = item.split('::')[1]
         if not first:
             ctx.finding('L3', '%s::print/language' % name, '%s::print selects its formats by %s, not by the session language' % (name, keys), site=b.loc)
